@@ -222,6 +222,17 @@ def run_case(case):
         viol.append({'key': 'C17:equality-same-values-unequal', 'msg': 'objects with identical field values compare unequal (field %s)' % f})
     if a == c or not (a != c):
         viol.append({'key': 'C17:equality-ignores-' + f, 'msg': 'objects differing only in %s compare equal' % f})
+    # field values that differ in the LAST BIT are different values: equality compares field values, not closeness
+    near = {'iroas': (2.0, nxt(2.0)), 'volume_ratio_tolerance': (0.5, nxt(0.5)), 'geo_ratio_tolerance': (0.5, prv(0.5)),
+            'treatment_share_range': ((0.1, 0.4), (0.1, nxt(0.4))), 'budget_range': ((1.0, 2.0), (nxt(1.0), 2.0)),
+            'rho_max': (0.95, nxt(0.95)), 'sig_level': (0.8, prv(0.8)), 'power_level': (0.7, nxt(0.7)),
+            'min_corr': (0.85, nxt(0.85)), 'flevel': (0.95, prv(0.95))}
+    if f in near:
+        u, v = near[f]
+        pu = TBRMMDesignParameters(**dict(dict(n_test=3, iroas=1.0), **{f: u}))
+        pv = TBRMMDesignParameters(**dict(dict(n_test=3, iroas=1.0), **{f: v}))
+        if pu == pv or not (pu != pv):
+            viol.append({'key': 'C17:equality-tolerant-' + f, 'msg': 'objects whose %s differ in the last bit (%r vs %r) compare equal' % (f, u, v)})
     return {'viol': viol, 'nontrivial': True, 'outcome': 'eq'}
 
 
